@@ -619,6 +619,7 @@ func (m *Memberlist) gossip() {
 			return true
 		}
 	})
+	m.vt("gossip.pick", kNodes)
 	m.nodeLock.RUnlock()
 
 	// Compute the bytes available
@@ -663,6 +664,7 @@ func (m *Memberlist) pushPull() {
 		return n.Name == m.config.Name ||
 			n.State != StateAlive
 	})
+	m.vt("pushpull.pick", nodes)
 	m.nodeLock.RUnlock()
 
 	// If no nodes, bail
